@@ -571,6 +571,10 @@ func (c *c13) exec(line string) (obs string, suffix string) {
 			extra = fmt.Sprintf(" nu=%s nl=%s", b01(nu), b01(nl))
 			if !nl {
 				c.r.Hit("newton/lower-contract-fails-at-executed-purchase")
+				sold0, sold1, L := planBefore.SoldAmt, pa.SoldAmt, c.L
+				post = append(post, func() {
+					c.viol("C13/newton_contract/undershoot-at-executed-purchase", fmt.Sprintf("executed purchase L=%d sold %s: net spend %s buys %s tokens whose curve value is below the spend by more than the Newton tolerance (3·1e-12 + 1e-11·spend)", L, sold0, net, sold1.Sub(sold0)))
+				})
 			}
 			if !nu {
 				c.r.Hit("newton/upper-contract-fails-at-executed-purchase")
